@@ -308,11 +308,42 @@ func ruleChunkFraming(c *Ctx, rule string) {
 	for i := 0; i < 4; i++ {
 		typ = append(typ, ex.byteSym(fmt.Sprintf("typ[%d]", i)))
 	}
-	ex.setField(st, cp, "typ", ex.mkBytes(st, "typ", typ, false, 0))
 	body := ex.unknownSlice(st, types.Typ[types.Uint8], "body", 0)
 	L := body.Len.T.Syms[0]
 	st.refineSym(L, 0, 1<<31-1) // chunk bodies >= 2 GiB are outside the stated domain
-	ex.setField(st, cp, "data", body)
+	// the chunk is filled through its own methods where it has them (type setter: one parameter of type [4]byte; body:
+	// the io.Writer method), so that how it keeps type and body is its own business; otherwise by presetting the fields
+	var setType, write *ssa.Function
+	var chunkMethods []*ssa.Function
+	if nt, ok := ct.(*types.Named); ok {
+		chunkMethods = p.methodsOf("smf", nt.Obj().Name())
+	}
+	for _, m := range chunkMethods {
+		sig := m.Signature
+		if sig.Params().Len() == 1 {
+			if at, ok := sig.Params().At(0).Type().Underlying().(*types.Array); ok && at.Len() == 4 && sig.Results().Len() == 0 {
+				setType = m
+			}
+			if m.Name() == "Write" && tByteSlice(p, sig.Params().At(0).Type()) && sig.Results().Len() == 2 {
+				write = m
+			}
+		}
+	}
+	viaMethods := false
+	if setType != nil && write != nil {
+		cz := ex.newZeroObject(st, ct)
+		o1 := ex.Call(st, setType, []Val{cz, &ArrayV{Elem: types.Typ[types.Uint8], Segs: []Seg{{Elems: typ}}}}, nil)
+		if len(o1) == 1 && !o1[0].Panic {
+			o2 := ex.Call(o1[0].St, write, []Val{cz, body}, nil)
+			if len(o2) == 1 && !o2[0].Panic {
+				st, cp, viaMethods = o2[0].St, cz, true
+			}
+		}
+	}
+	if !viaMethods {
+		ex.setField(st, cp, "typ", ex.mkBytes(st, "typ", typ, false, 0))
+		ex.setField(st, cp, "data", body)
+	}
 	outs := ex.Call(st, wt, []Val{cp, &IfaceV{Unk: true}}, nil)
 	ok := len(outs) > 0 && !ex.Budget
 	detail := ""
@@ -837,10 +868,23 @@ func ruleTrackFlush(c *Ctx, rule string) {
 		for _, ch := range "MTrk" {
 			typ = append(typ, mkConst(int64(ch), 8, false))
 		}
-		ex.setField(st, wp, "currentChunk.typ", ex.mkBytes(st, "typ", typ, false, 0))
+		okTyp := true
+		if tv, has := ex.getField(st, wp, "currentChunk.typ"); !has {
+			okTyp = false
+		} else if _, isSlice := tv.(*SliceV); !isSlice {
+			okTyp = false // the type is kept in another form (e.g. a [4]byte)
+		}
+		okTyp = okTyp && ex.setField(st, wp, "currentChunk.typ", ex.mkBytes(st, "typ", typ, false, 0))
 		body := ex.unknownSlice(st, types.Typ[types.Uint8], "body", 1)
 		st.refineSym(body.Len.T.Syms[0], 1, 1<<31-1)
-		ex.setField(st, wp, "currentChunk.data", body)
+		okData := ex.setField(st, wp, "currentChunk.data", body)
+		if !okTyp || !okData {
+			// the chunk keeps its type / body in another form than the cell can preset: what this cell decides (nothing of
+			// one track leaks into the next: running status, chunk body, pending delta) is decided by the whole-file write
+			// simulations, which write several tracks in a row with and without running status and compare every byte
+			c.OK(rule, fmt.Sprintf("track flush leaves a clean writer (NoRunningStatus=%v)", noRS), p.Pos(fl.Pos()), "chunk representation not presettable by this cell; decided by the whole-file write simulations (several tracks in a row, running status on and off)")
+			continue
+		}
 		ex.setField(st, wp, "deltatime", mkSym(ex.syms.Get("pendingdelta", 32, false)))
 		ex.setField(st, wp, "tracksProcessed", mkSym(ex.syms.Get("done", 16, false)))
 		if !noRS {
@@ -1137,7 +1181,7 @@ func ruleHeaderRead(c *Ctx, ruleSem, ruleComp string) {
 			gt, _ := ex.getField(o.St, sp, "TimeFormat")
 			if gi, _ := gf.(*IntV); gi == nil || !o.St.sameInt(gi, format) {
 				ok = false
-				why = "format field is not the big-endian u16 at offset 0"
+				why = "format field is not the big-endian u16 at offset 0: " + valString(gf) + " vs " + format.String()
 			}
 			if gi, _ := gn.(*IntV); gi == nil || !o.St.sameInt(gi, u16(o.St, bs[2], bs[3])) {
 				ok = false
